@@ -79,6 +79,23 @@ def gen_cases(seed, tier):
             cases.append(PC.mk_case('chained', s, False, 'chained-deltas'))
     for _ in range(400 if quick else 5000):
         cases.append(PC.mk_case('chained', docgen.soup(rnd, docgen.SYM_CHAINED, 2, 9), False, 'chained-deltas'))
+    cases += PC.twin_cases(random.Random(seed + 82), 250 if quick else 4000, tolerant=(False, True))
+    # definitions made while parsing (\\dm{name} defines \\name from there on; real code only): whatever number of
+    # them precedes it, every environment and every macro they do not define is still looked up as configured
+    r3 = random.Random(seed + 83)
+    dsyms = MATH_SYMS + extra + ['\\dm{zq}', '\\dm{zr}', '\\dm{zs}', '\\zq{a}', '\\dm{zq}', '{', '}']
+    for _ in range(500 if quick else 8000):
+        k = r3.randint(0, 5)
+        s = ''.join(r3.choice(['\\dm{zq}', '\\dm{zr}', '\\dm{zs}', '\\dm{zt} ']) for _ in range(k))
+        if r3.random() < 0.3:
+            s += docgen.soup(r3, dsyms, 2, 10)
+        else:           # well-formed pieces, definitions in between and inside groups / environments
+            frag = ['\\begin{equation}a\\end{equation}', '\\begin{align*}x\\end{align*}', '$a$', '\\textbf{a}', '\\zq{a}', 'a', ' ',
+                    '\\ensuremath{a}', '\\text{a}', '{\\dm{zs}\\zs{a}}', '\\[a\\]', '\\dm{zr}', '\\dm{zq}', '\\zr{$b$}',
+                    '\\begin{itemize}\\dm{zt}\\dm{zs}\\begin{equation}c\\end{equation}\\end{itemize}', '$\\dm{zq}\\dm{zr}\\text{t $u$}$',
+                    '\\begin{center}\\dm{zq}\\end{center}', '\\begin{zzunknown}d\\end{zzunknown}', '\\zzunk']
+            s += ''.join(r3.choice(frag) for _ in range(r3.randint(1, 6)))
+        cases.append(PC.mk_case('defs', s, False, 'definitions'))     # strict: recovery nodes carry no specification
     return cases
 
 
@@ -235,6 +252,38 @@ def _check(n, mode, path, table=None):
     return None
 
 
+def _check_lookups(nl, db, defined=('zq', 'zr', 'zs', 'zt')):
+    """every environment node, and every macro node whose name no definition in the document introduces, carries the
+    specification object the configured database gives for its name"""
+    def walk(n):
+        k = treedump.kind(n)
+        if k is None:
+            return None
+        if k == 'L':
+            for x in (n if isinstance(n, (list, tuple)) else n.nodelist):
+                r = walk(x)
+                if r:
+                    return r
+            return None
+        if k == 'E':
+            if n.spec is not db.get_environment_spec(n.environmentname):
+                return ('environment-not-looked-up-as-configured', {'node': treedump.dump(n)[:200],
+                                                                    'got_spec': repr(n.spec)[:120]})
+        if k == 'M' and n.macroname not in defined:
+            if n.spec is not db.get_macro_spec(n.macroname):
+                return ('macro-not-looked-up-as-configured', {'node': treedump.dump(n)[:200], 'got_spec': repr(n.spec)[:120]})
+        pa = getattr(n, 'nodeargd', None)
+        if pa is not None and pa.argnlist:
+            for a in pa.argnlist:
+                r = walk(a)
+                if r:
+                    return r
+        if hasattr(n, 'nodelist'):
+            return walk(n.nodelist)
+        return None
+    return walk(nl)
+
+
 def _dollar_reference(s):
     """independent reading of strings over {$, a}: list of ('inline'|'display'|'chars', text) or None if unbalanced"""
     out = []
@@ -268,6 +317,8 @@ def oracle(c):
     d = c['desc']
     if d.get('origin') == 'custom-delimiters':
         return _oracle_delims(d)
+    if d.get('origin') == 'chained-twin':
+        return PC.oracle_twin(d)
     r = PC.real_parse(d)
     if r[0] != 'ok' or r[1] is None:
         s = d['s']
@@ -276,6 +327,10 @@ def oracle(c):
             if ref is not None and all(k == 'chars' or t.strip() for k, t in ref):
                 return ('well-formed-dollar-document-rejected', {'expected': ref, 'error_pos': r[1].pos})
         return None
+    if d.get('origin') == 'definitions':
+        bad = _check_lookups(r[1], docgen.make_db('defs'))
+        if bad:
+            return bad
     st = d.get('state') or {}
     table = None
     if 'latex_inline_math_delimiters' in st or 'latex_display_math_delimiters' in st:
